@@ -79,8 +79,35 @@ class FPos:
         self.x, self.y, self.z = xyz
 
 
-class FRows:
-    """stand-in for the (n, 3) coordinate array Conformer.GetPositions() returns: rows are position vectors"""
+def _unsup(what):
+    def f(self, *a, **kw):
+        raise symx.Unsupported('numpy operation outside the model of position vectors: %s' % what)
+    return f
+
+
+class _ArrayLike:
+    """operations the stand-ins do not model are engine limitations (inconclusive), never a failure of the code"""
+
+    def __getattr__(self, name):
+        if name.startswith('__'):
+            raise AttributeError(name)
+        raise symx.Unsupported('numpy attribute outside the model of position vectors: %s.%s' % (type(self).__name__, name))
+
+    for _op in ('__pow__', '__rpow__', '__floordiv__', '__rfloordiv__', '__mod__', '__rmod__', '__lt__', '__le__', '__gt__', '__ge__',
+                '__and__', '__or__', '__invert__', '__abs__', '__setitem__', '__contains__'):
+        locals()[_op] = _unsup(_op)
+    del _op
+
+
+class Column(_ArrayLike):
+    """v[:, np.newaxis] / v.reshape(-1, 1): one factor per row"""
+
+    def __init__(self, xs):
+        self.xs = list(xs)
+
+
+class FRows(_ArrayLike):
+    """stand-in for an (n, 3) coordinate array (Conformer.GetPositions(), np.array of position vectors): rows are vectors"""
 
     def __init__(self, rows):
         self.rows = [tuple(r) for r in rows]
@@ -93,8 +120,18 @@ class FRows:
             return FRows(self.rows[i])
         if isinstance(i, tuple):
             r, c = i
-            return self.rows[r][c]
+            if isinstance(r, int) and isinstance(c, int):
+                return self.rows[r][c]
+            raise symx.Unsupported('numpy indexing outside the model of position vectors')
         return SymVec(list(self.rows[i]))
+
+    def __setitem__(self, i, v):
+        if not isinstance(i, int):
+            raise symx.Unsupported('numpy item assignment outside the model of position vectors')
+        v = list(v.xs) if isinstance(v, SymVec) else list(v)
+        if len(v) != len(self.rows[i]):
+            raise ValueError('could not broadcast input array')
+        self.rows[i] = tuple(v)
 
     def __iter__(self):
         return iter(SymVec(list(r)) for r in self.rows)
@@ -104,6 +141,48 @@ class FRows:
 
     def tolist(self):
         return [list(r) for r in self.rows]
+
+    @property
+    def shape(self):
+        return (len(self.rows), len(self.rows[0]) if self.rows else 0)
+
+    def _rowwise(self, o, f):
+        if isinstance(o, Column):
+            if len(o.xs) != len(self.rows):
+                raise ValueError('operands could not be broadcast together')
+            return FRows([[f(x, k) for x in r] for r, k in zip(self.rows, o.xs)])
+        if isinstance(o, SymVec):        # broadcast along the rows
+            return FRows([[f(x, y) for x, y in zip(r, o.xs)] for r in self.rows])
+        if isinstance(o, FRows):
+            return FRows([[f(x, y) for x, y in zip(r, q)] for r, q in zip(self.rows, o.rows)])
+        return FRows([[f(x, o) for x in r] for r in self.rows])
+
+    def __mul__(self, o): return self._rowwise(o, lambda a, b: a * b)
+    __rmul__ = __mul__
+    def __truediv__(self, o): return self._rowwise(o, lambda a, b: a / b)
+    def __add__(self, o): return self._rowwise(o, lambda a, b: a + b)
+    __radd__ = __add__
+    def __sub__(self, o): return self._rowwise(o, lambda a, b: a - b)
+
+    def sum(self, axis=None, **kw):
+        if axis != 0 or kw:
+            raise symx.Unsupported('array.sum over an axis other than 0')
+        if not self.rows:
+            raise symx.Unsupported('sum of an empty array')
+        cols = list(zip(*self.rows))
+        out = []
+        for c in cols:
+            t = c[0]
+            for x in c[1:]:
+                t = t + x
+            out.append(t)
+        return SymVec(out)
+
+    def mean(self, axis=None, **kw):
+        return self.sum(axis=axis, **kw) / len(self.rows)
+
+    def __rmatmul__(self, w):
+        return SymVec(list(w)) @ self
 
 
 class FConf(_Fake):
@@ -219,8 +298,8 @@ class FAllChem(metaclass=_FakeMeta):
         return 0
 
 
-class SymVec:
-    """stand-in for a 1-D numpy position vector over exact reals"""
+class SymVec(_ArrayLike):
+    """stand-in for a 1-D numpy vector over exact reals (a position, or a vector of weights)"""
 
     def __init__(self, xs):
         self.xs = list(xs)
@@ -228,17 +307,23 @@ class SymVec:
     def _bin(self, o, f):
         if isinstance(o, SymVec):
             return SymVec([f(a, b) for a, b in zip(self.xs, o.xs)])
+        if isinstance(o, (FRows, Column)):
+            return NotImplemented
         return SymVec([f(a, o) for a in self.xs])
 
     def __add__(self, o): return self._bin(o, lambda a, b: a + b)
     __radd__ = __add__
     def __sub__(self, o): return self._bin(o, lambda a, b: a - b)
+    def __rsub__(self, o): return self._bin(o, lambda a, b: b - a)
     def __mul__(self, o): return self._bin(o, lambda a, b: a * b)
     __rmul__ = __mul__
     def __truediv__(self, o): return self._bin(o, lambda a, b: a / b)
+    def __neg__(self): return SymVec([-a for a in self.xs])
 
     # augmented assignment works in place, as on a numpy array (aliases of the vector see the change)
     def _inplace(self, r):
+        if r is NotImplemented:
+            raise symx.Unsupported('in-place arithmetic between a vector and an array')
         self.xs = list(r.xs)
         return self
 
@@ -259,8 +344,44 @@ class SymVec:
     def __len__(self):
         return len(self.xs)
 
+    @property
+    def shape(self):
+        return (len(self.xs),)
+
     def __getitem__(self, i):
+        if isinstance(i, tuple):
+            if len(i) == 2 and i[0] == slice(None) and i[1] is None:
+                return Column(self.xs)          # v[:, np.newaxis]
+            raise symx.Unsupported('numpy indexing outside the model of position vectors')
+        if isinstance(i, slice):
+            return SymVec(self.xs[i])
         return self.xs[i]
+
+    def reshape(self, *shape):
+        shape = shape[0] if len(shape) == 1 and isinstance(shape[0], tuple) else shape
+        if tuple(shape) in ((-1, 1), (len(self.xs), 1)):
+            return Column(self.xs)
+        raise symx.Unsupported('reshape outside the model of position vectors')
+
+    def sum(self, axis=None, **kw):
+        if axis not in (None, 0) or kw or not self.xs:
+            raise symx.Unsupported('vector.sum form')
+        t = self.xs[0]
+        for x in self.xs[1:]:
+            t = t + x
+        return t
+
+    def __matmul__(self, o):
+        if isinstance(o, FRows):            # weights @ positions
+            if len(o.rows) != len(self.xs):
+                raise ValueError('matmul: mismatch in its core dimension')
+            return (o * Column(self.xs)).sum(axis=0)
+        if isinstance(o, SymVec):
+            return (self * o).sum()
+        raise symx.Unsupported('matmul form')
+
+    def dot(self, o):
+        return self @ o
 
 
 class _NpMeta(type):
@@ -272,17 +393,26 @@ class _NpMeta(type):
 
 
 class FNp(metaclass=_NpMeta):
+    newaxis = None
+    float64 = float
+
     @staticmethod
     def zeros(n, *a, **kw):
+        if isinstance(n, tuple) and len(n) == 2 and all(isinstance(k, int) for k in n):
+            return FRows([[0] * n[1] for _ in range(n[0])])
+        if isinstance(n, tuple) and len(n) == 1:
+            n = n[0]
         if not isinstance(n, int):
-            raise symx.Unsupported('np.zeros with a shape other than a length')
+            raise symx.Unsupported('np.zeros with a shape other than a length or (rows, columns)')
         return SymVec([0] * n)
 
     @staticmethod
+    def fromiter(it, *a, **kw):
+        return SymVec(list(it))
+
+    @staticmethod
     def array(xs, *a, **kw):
-        if isinstance(xs, FRows):
-            return xs.copy()
-        if isinstance(xs, SymVec):
+        if isinstance(xs, (FRows, SymVec)):
             return xs.copy()
         xs = list(xs)
         if xs and isinstance(xs[0], (SymVec, list, tuple)):
@@ -294,6 +424,43 @@ class FNp(metaclass=_NpMeta):
     @staticmethod
     def copy(x):
         return x.copy()
+
+    @staticmethod
+    def _coerce(x):
+        return FNp.array(x) if isinstance(x, (list, tuple)) and x else x
+
+    @staticmethod
+    def sum(x, axis=None, **kw):
+        x = FNp._coerce(x)
+        if isinstance(x, (FRows, SymVec)):
+            return x.sum(axis=axis, **kw)
+        raise symx.Unsupported('np.sum form')
+
+    @staticmethod
+    def mean(x, axis=None, **kw):
+        x = FNp._coerce(x)
+        if isinstance(x, FRows):
+            return x.mean(axis=axis, **kw)
+        raise symx.Unsupported('np.mean form')
+
+    @staticmethod
+    def average(x, axis=None, weights=None, **kw):
+        x = FNp._coerce(x)
+        if isinstance(x, FRows) and axis == 0 and not kw:
+            if weights is None:
+                return x.mean(axis=0)
+            w = weights if isinstance(weights, SymVec) else SymVec(list(weights))
+            return (w @ x) / w.sum()
+        raise symx.Unsupported('np.average form')
+
+    @staticmethod
+    def dot(a, b):
+        a = a if isinstance(a, (SymVec, FRows)) else SymVec(list(a))
+        if isinstance(a, SymVec):
+            return a @ b
+        raise symx.Unsupported('np.dot form')
+
+    matmul = dot
 
 
 def vec_list(v):
@@ -370,6 +537,8 @@ class C18(core.Prop):
         for nbeads, nmem in ((2, 2), (2, 3)) if q else ((2, 2), (2, 3), (3, 2), (2, 4)):
             for shared in (False, True):
                 out.append({'mode': 'forward', 'nbeads': nbeads, 'nmem': nmem, 'shared': shared})
+                # bead keys that are neither 0..n-1 nor increasing in iteration order
+                out.append({'mode': 'forward', 'nbeads': nbeads, 'nmem': nmem, 'shared': shared, 'bkeys': 'descending'})
         return out
 
     # ------------------------------------------------------------------
@@ -439,12 +608,13 @@ class C18(core.Prop):
                 # bead they belong to), and each bead's 'graph' holds copies of its atoms' attributes
                 aa = nx.Graph()
                 fragid = {}
+                bk = (lambda b: 10 * (nb - b) + 1) if shape.get('bkeys') else (lambda b: b)
                 for b in range(nb):
                     for atom in self._members(shape, b):
-                        fragid.setdefault(atom, []).append(b)
+                        fragid.setdefault(atom, []).append(bk(b))
                 for i, p in enumerate(inp['pos']):
                     aa.add_node(10 + i, position=FNp.array(list(p)), weight=inp['w'][i], fragid=list(fragid[i]), element='C',
-                                fragname='F%d' % fragid[i][0], atomname='C%d' % i)
+                                fragname='F%d' % (fragid[i][0] % 7), atomname='C%d' % i)
                 cg = nx.Graph()
                 for b in range(nb):
                     gf = nx.Graph()
@@ -454,11 +624,11 @@ class C18(core.Prop):
                     for x, y in zip(mem, mem[1:]):
                         gf.add_edge(10 + x, 10 + y, order=1)
                         aa.add_edge(10 + x, 10 + y, order=1)
-                    cg.add_node(b, graph=gf, fragname='F%d' % b)
+                    cg.add_node(bk(b), graph=gf, fragname='F%d' % (bk(b) % 7))
                     if b:
-                        cg.add_edge(b - 1, b, order=1)
+                        cg.add_edge(bk(b - 1), bk(b), order=1)
                 M.coordinates.forward_map_molecule(cg, aa)
-                return {b: vec_list(cg.nodes[b]['position']) for b in cg.nodes}
+                return {b: (vec_list(cg.nodes[bk(b)]['position']) if 'position' in cg.nodes[bk(b)] else None) for b in range(nb)}
             return core.guard(run)
         g = self._graph(shape, inp)
         FAllChem.positions = [tuple(p) for p in inp['pos']]
@@ -498,6 +668,9 @@ class C18(core.Prop):
                     w = inp['w'][atom]
                     sw = sw + w
                     acc = [acc[c] + w * inp['pos'][atom][c] for c in range(3)]
+                cl.append(('every_bead_has_a_position', o[b] is not None))
+                if o[b] is None:
+                    continue
                 # bead * sum(w) == sum(w_i p_i)   (multiplied out: no division in the query)
                 cl.append(('bead_is_weight_normalised_mean', band(*[gg.val_eq(o[b][c] * sw, acc[c]) for c in range(3)])))
             return cl
@@ -548,5 +721,5 @@ class C18(core.Prop):
 PROP = C18()
 
 # shape families added after the first complete pass (DESIGN 8.6-8.11); appended to the bounds written into the evidence
-BOUNDS_ADDED = '; weights >= 0 with positive total; embed shapes with a hydrogen as second node; forward-map inputs carry weight / fragid on the atoms and attribute copies in the bead graphs, as resolver output does'
+BOUNDS_ADDED = '; weights >= 0 with positive total; embed shapes with a hydrogen as second node; forward-map inputs carry weight / fragid on the atoms and attribute copies in the bead graphs, as resolver output does; bead keys 0..n-1 and descending non-contiguous; embed history (same molecule embedded before with nodes reversed); numpy stand-in covers vectorised forward maps (rows, columns, sum/mean/average/matmul)'
 PROP.BOUNDS = {k: v + BOUNDS_ADDED for k, v in PROP.BOUNDS.items()}
